@@ -34,6 +34,11 @@ def m_into_iter(ctx):
     return to_iter(ctx, ctx.args[0])
 
 
+@M.reg_re(r"IntoIterator for &'a (mut )?(\[T\]|\[T; N\]|alloc::vec::Vec<T, A>)>::into_iter$")
+def m_into_iter_ref(ctx):
+    return to_iter(ctx, ctx.args[0])
+
+
 @M.reg("core::slice::<impl [T]>::chunks_exact", "core::slice::<impl [T]>::chunks_exact_mut", "core::slice::<impl [T]>::windows", "core::slice::<impl [T]>::chunks")
 def m_chunks(ctx):
     S, I = ctx.S, ctx.I
